@@ -29,6 +29,9 @@ var logGhosts = map[string]bool{}
 
 func newGhostVar(name, sort string) GhostVar {
 	name = strings.TrimSpace(name)
+	if n, ok := registerCursorGhost(name); ok { // cursorghost.go (x-c01): `ghost cursor name: sort`
+		return GhostVar{n, strings.TrimSpace(sort)}
+	}
 	if strings.HasPrefix(name, "log ") {
 		name = strings.TrimSpace(name[4:])
 		logGhosts[name] = true
